@@ -630,7 +630,14 @@ def _main(tcp_listener, udp_listener, fw, ssh_cmd, remotename,
         v = 'x'
         while v and v != b'\0':
             v = rfile.read(1)
-        initstring = rfile.read(len(expected))
+        # rfile is unbuffered: one read() may return fewer bytes than asked
+        # for when the init string arrives split across segments.
+        initstring = b''
+        while len(initstring) < len(expected):
+            v = rfile.read(len(expected) - len(initstring))
+            if not v:
+                break
+            initstring += v
     except socket.error as e:
         if e.args[0] == errno.ECONNRESET:
             debug3('Error: ECONNRESET ' + repr(e))
